@@ -79,6 +79,9 @@ class P(Prop):
         (M, "TV.C10.matched_on_built_network_3d", "a network built by addEdge from LINESTRING(x y z)-made edges stores the n-th geometry under number n WITH its altitudes; a matched state lies on the planimetric vertices of THAT geometry, distances adding up to its planimetric length"),
         (M, "TV.C10.near_edge_is_candidate_3d", "near_edge_is_candidate with altitudes: the index reads x, y only"),
         (M, "TV.C10.returns_on_regular_geometries", "on edges with computed abs_curv columns whose geometries have no kept vertical segment and at least one kept segment, candidate lists of existing edge numbers and in-range decoded indices: __mapOnNetwork raises nothing"),
+        (M, "TV.C10.candidates_are_edge_numbers", "on a network built by addEdge calls with distinct ids the spatial index (constructor before or after the last edges) only answers numbers of existing edges: no KeyError / IndexError in the candidate loop"),
+        (M, "TV.C10.states_returned_on_built_network", "on a built network with regular geometries the preparation of STATES for a whole track returns unless the index query itself raises"),
+        (M, "TV.C10.states_returned_on_built_network_3d", "the same with altitudes (regularity of the planimetric geometries)"),
         (M, "TV.C10.states_returned_3d", "the same for STATES[i] on data with altitudes: whether the projection can raise is decided by the planimetric geometry alone"),
     ]
     partial = []
@@ -89,8 +92,9 @@ class P(Prop):
                        "exceptions: the soundness theorems are about a call that returns; returns_on_regular_geometries says when it does (no kept vertical segment, no edge without a kept "
                        "segment, candidates = existing edge numbers, in-range decoder). Outside: ZeroDivisionError of the projection on a vertical segment (finding D16, class "
                        "vertical-segment-zerodiv), UnboundLocalError on a candidate edge all of whose vertices coincide (class zero-length-edge-unbound) — both mirrored by the models and "
-                       "compared —, AnalyticalFeatureError on a track without observation; that the index only answers numbers of registered edges is C08's subject (no soundness theorem "
-                       "there yet: it is a hypothesis of returns_on_regular_geometries)",
+                       "compared —, AnalyticalFeatureError on a track without observation; that the index of a built network only answers numbers of existing "
+                       "edges is proved here (candidates_are_edge_numbers); that the index QUERY itself does not raise (neighborhood on a built index) is C08's subject and stays a hypothesis "
+                       "of states_returned_on_built_network",
                        "IEEE rounding: the theorems are over an ordered field with an exact square root; the float behaviour is sampled by the transfer check (tolerance 1e-9 relative)",
                        "which length 'the edge length' is: the code measures planimetrically (abs_curv = sums of distance2DTo, assigned point with U = 0, __distToNode with distance2DTo): the "
                        "theorems of Part IV state d0 + d1 = planimetric length of the stored geometry; Track.length() / Edge.weight is the 3D length (weight_is_3d_length) and differs on every "
